@@ -142,6 +142,9 @@ func ReadFile(r io.Reader) (File, []string, error) {
 		nextCommentLines = []string{}
 		nextRecordOpCode = 0
 	}
+	if err := tr.Err(); err != nil {
+		return f, warnings, err
+	}
 	return f, warnings, nil
 }
 
@@ -653,9 +656,21 @@ func readUnion(tr *tokenReader) (Union, error) {
 
 			// This is a close curly-- we must advance past it or the union
 			// will read it and believe it is complete
-			tr.Next()
+			branchClose := tr.Token()
+			if tr.Next() && tr.Token().kind == tokenKindCloseCurly && tr.Token().loc != branchClose.loc {
+				// the union's own close curly directly follows the branch
+				return union, nil
+			}
 			skipEndOfLineComments(tr)
 			optNewline(tr)
+			if tk := tr.Token(); tk.kind == tokenKindCloseCurly && tk.loc == branchClose.loc {
+				// nothing followed the branch: its close curly must not be
+				// mistaken for the end of the union
+				if err := tr.Err(); err != nil {
+					return union, err
+				}
+				return union, readError(tk, "union definition ended early")
+			}
 
 		case tokenKindOpenSquare:
 			if nextIsDeprecated {
